@@ -88,6 +88,37 @@ impl File {
     #[verifier::external_body]
     pub fn flush(&mut self) -> (r: vio::Result<()>) { unimplemented!() }
 }
+impl VWrite for File {}
+/// std::fs::OpenOptions as a builder: opening with create / create_new / truncate may create or clobber the file, so it
+/// needs the same permission as File::create (assumed contract, C13)
+pub struct OpenOptions { pub read: bool, pub write: bool, pub append: bool, pub truncate: bool, pub create: bool, pub create_new: bool }
+impl OpenOptions {
+    pub fn new() -> (r: OpenOptions)
+        ensures !r.read && !r.write && !r.append && !r.truncate && !r.create && !r.create_new
+    { OpenOptions { read: false, write: false, append: false, truncate: false, create: false, create_new: false } }
+    pub fn read(&mut self, b: bool) -> (r: &mut OpenOptions)
+        ensures *r == (OpenOptions { read: b, ..*old(self) }), *final(r) == *final(self)
+    { self.read = b; self }
+    pub fn write(&mut self, b: bool) -> (r: &mut OpenOptions)
+        ensures *r == (OpenOptions { write: b, ..*old(self) }), *final(r) == *final(self)
+    { self.write = b; self }
+    pub fn append(&mut self, b: bool) -> (r: &mut OpenOptions)
+        ensures *r == (OpenOptions { append: b, ..*old(self) }), *final(r) == *final(self)
+    { self.append = b; self }
+    pub fn truncate(&mut self, b: bool) -> (r: &mut OpenOptions)
+        ensures *r == (OpenOptions { truncate: b, ..*old(self) }), *final(r) == *final(self)
+    { self.truncate = b; self }
+    pub fn create(&mut self, b: bool) -> (r: &mut OpenOptions)
+        ensures *r == (OpenOptions { create: b, ..*old(self) }), *final(r) == *final(self)
+    { self.create = b; self }
+    pub fn create_new(&mut self, b: bool) -> (r: &mut OpenOptions)
+        ensures *r == (OpenOptions { create_new: b, ..*old(self) }), *final(r) == *final(self)
+    { self.create_new = b; self }
+    #[verifier::external_body]
+    pub fn open<P>(&self, path: P) -> (r: vio::Result<File>)
+        requires (self.create || self.create_new || self.truncate) ==> fs_create_permitted()
+    { unimplemented!() }
+}
 pub enum Stream { Stdin, Stdout, Stderr }
 #[verifier::external_body]
 pub fn isatty(s: Stream) -> bool { unimplemented!() }
@@ -180,3 +211,15 @@ impl vstd::std_specs::convert::FromSpecImpl<passterm::Error> for AnyhowError {
     open spec fn obeys_from_spec() -> bool { false }
     uninterp spec fn from_spec(e: passterm::Error) -> AnyhowError;
 }
+
+// --- rule R20: slice::Iter::find with a closure (assumed std meaning: first accepted element, None if none is accepted)
+#[verifier::external_body]
+pub fn v_iter_find<'a, T, F: Fn(&T) -> bool>(v: &'a Vec<T>, f: F, Ghost(p): Ghost<spec_fn(T) -> bool>) -> (r: Option<&'a T>)
+    requires
+        forall|x: &T| #[trigger] f.requires((x,)),
+        forall|x: &T, b: bool| #[trigger] f.ensures((x,), b) ==> b == p(*x),
+    ensures
+        r matches Some(k) ==> p(*k) && exists|i: int| 0 <= i < v@.len() && *k == #[trigger] v@[i] && forall|j: int| 0 <= j < i ==> !p(#[trigger] v@[j]),
+        r is None ==> forall|i: int| 0 <= i < v@.len() ==> !p(#[trigger] v@[i]),
+{ v.iter().find(|x| f(x)) }
+pub assume_specification[ str::eq_ignore_ascii_case ](a: &str, b: &str) -> (r: bool);
